@@ -42,6 +42,8 @@ func (s *writerState) init(b buffer.Buffer) {
 
 func (s *writerState) reset() {
 	s.buf = nil
+	s.releaseState = false
+	s.releaseWriter = false
 
 	s.stack.reset()
 	s.elements.reset()
